@@ -161,6 +161,53 @@ for f in sorted(glob.glob(os.path.join(VERIF, "tools", "manifest_c*.json"))):
 # appended to the text / note / technique of C13 and C14, whatever tools/manifest_c13.json / manifest_c14.json say
 # (C08: tools/translate_ackparse.py, the decoders of ack.rs / event.rs)
 SOURCE_TIE = {
+    "C06": dict(
+        text=" TIE TO THE SOURCE CODE: tools/translate_control.py (own tokenizer, statement / expression parser, typed "
+             "statement-level emitter; debug-build integer semantics of lib/RustInt.v) re-translates on every run, from "
+             "cameleon/src/u3v/control_handle.rs into gen/ControlSrc.v, fn verify_range, ControlHandle::{assert_open, "
+             "verify_ack, send_cmd, abrm, initialize_config} and <ControlHandle as DeviceControl>::{is_opened, open, close, "
+             "read, write}: `?` / unwrap_or_log! as the bind of a state monad after the conversion From<u3v::Error> (text "
+             "pinned), early returns, `while retry_count > 0` with continue / break as a Fixpoint over fuel, `for` over "
+             "chunks / chunks_mut as Fixpoints over the chunk list, `for` over WriteMemChunks as a fuelled Fixpoint stepping "
+             "the `next` translated by tools/translate_chunks.py (gen/ReadChunks.v, also regenerated), mutable locals as "
+             "rebinding, send_cmd<T, U> taking the model's command and the view record. model/CtlOps.v gives the operations "
+             "their meaning over model/Control.v's own primitives; the CONTENTS of self.buffer and the sleeps are ghost state. "
+             "C06_read_from_source, C06_write_from_source (any u64 address, any size: induction over the chunk lists / fuel), "
+             "C06_verify_range_from_source, C06_assert_open_from_source and C06_session_from_source (abrm, initialize_config, "
+             "open, close; the register_map.rs accessors they use pinned by text) prove the translated functions equal to "
+             "ctl_read / ctl_write / verify_range / assert_open / h_abrm / initialize_config / ctl_open / ctl_close - same "
+             "result or error class, same handle, same device traffic and memory - from every handle with fields in their "
+             "types' ranges and every device that sends bytes; C06_read_of_source / C06_write_of_source restate the exactness "
+             "clause on the translated code alone (composition with C06_read_memory / C06_write_memory); "
+             "C06_source_examples: non-vacuity by vm_compute. A source change outside the accepted subset is reported as a "
+             "broken proof obligation (ShapeError), a change inside it breaks the equalities.",
+        note=" Also trusted: tools/translate_control.py (parser, typing of integer expressions, rebinding of mutable "
+             "locals, the classification of `if` branches, loop-carried variables, erasure of references - sound for the "
+             "accepted shapes: the only state behind `&mut self` is threaded by the monad, a Result that is not propagated is "
+             "refused) and model/CtlOps.v (Vec::resize, slice indexing / chunks / copy_from_slice with their panics, the "
+             "channel operations as the scripted device's on_send / on_recv, the packet operations as model/Cmd.v / "
+             "model/Ack.v - tied to cmd.rs / ack.rs by C09 / C08; timeout_duration is not modelled: the translator refuses a "
+             "time-out argument other than self.config.timeout_duration and a sleep of anything but the pending "
+             "acknowledge's time-out); the hypotheses hinv / wbytes (fields within their types, the device sends bytes) are "
+             "needed because `as usize` is `mod 2^64` in the translation.",
+        technique=" + code translator (control transaction layer of control_handle.rs: verify_range, assert_open, read, write, open, close, initialize_config)"),
+    "C07": dict(
+        text=" TIE TO THE SOURCE CODE: tools/translate_control.py re-translates on every run verify_ack and send_cmd of "
+             "cameleon/src/u3v/control_handle.rs (and read / write, which call them) into gen/ControlSrc.v over "
+             "model/CtlOps.v. C07_verify_ack_from_source: the translated verify_ack tests the status, then the request id, "
+             "both failures Io, nothing touched. C07_send_cmd_from_source - the FULL equality, nothing partial: for every "
+             "constructed command and every view the translated send_cmd (length check against maximum_cmd_length, buffer "
+             "grown to max(cmd_len, maximum_ack_len), serialize into the buffer, send of buffer[..cmd_len], the retry loop - "
+             "recv into the whole buffer, parse of buffer[0..recv_len], verify_ack, a Pending acknowledge parsed, slept and "
+             "counted down, kind check, request id advanced once - then parse + scd_as) is the model's send_cmd followed by "
+             "the view, from every state; C07_retry_loop_from_source states the loop alone for every fuel above the retry "
+             "count (the fuel the translator passes is never used up). C07_total_of_source restates the property on the "
+             "translated code alone: against any device that sends bytes the translated read and write never panic and a "
+             "successful read fills the whole buffer; C07_source_examples: a wrong request id gives Io through the "
+             "translated code.",
+        note=" Also trusted: tools/translate_control.py and model/CtlOps.v (see C06); the ghost buffer contents make "
+             "`&self.buffer[..cmd_len]` / `[0..recv_len]` real slices (Panic outside the buffer) instead of pinned text.",
+        technique=" + code translator (verify_ack, send_cmd with its retry loop of control_handle.rs)"),
     "C18": dict(
         text=" TIE TO THE SOURCE CODE: tools/translate_access.py re-translates on every run NodeElementBase::{is_readable, "
              "is_writable, is_locked, is_implemented, is_available} (genapi/src/node_base.rs) and RegisterBase::{is_readable, "
@@ -392,6 +439,116 @@ SOURCE_TIE["C04"] = dict(
          "value / set_value / IRegister::read / write bodies of the register node types that call the three paths are not "
          "translated (model/Cache.v transcribes them; tied by the correspondence).",
     technique=" + code translator (register caching path: register_base.rs, port.rs, ValueCtxt, DefaultCacheStore / CacheSink)")
+SOURCE_TIE["C12"] = dict(
+    text=" TIE TO THE SOURCE CODE of the transfer layout: tools/translate_streamparams.py (the typed mini-Rust parser / emitter of tools/translate_streamparse.py extended with iterator adaptors, `for _ in 0..n`, `+=`, fall-through `if`, submit on a buffer range; debug-build integer semantics of lib/RustInt.v; operations of model/SpOps.v + model/RdOps.v) re-translates on every run, from cameleon/src/u3v/stream_handle.rs into gen/StreamParamsSrc.v, struct StreamParams, StreamParams::{new, "
+         "maximum_payload_size, payload_transfer_sizes} and the free functions read_leader / read_payload / read_trailer (a "
+         "`&mut [u8]` is its length, the AsyncPool is the list of ranges submitted so far, `res k` the result of the k-th "
+         "submission). C12_transfer_sizes_from_source: the translated payload_transfer_sizes is psizes for every parameter "
+         "record (list equality, any count). C12_max_payload_from_source: maximum_payload_size is max_payload, its "
+         "overflow-checked usize arithmetic panics exactly when the sum does not fit 64 bits. "
+         "C12_read_helpers_from_source: for every result of the submissions read_payload submits from offset 0 one slice per "
+         "element of payload_transfer_sizes (zero final transfers skipped, the cursor cannot overflow before a slice leaves the "
+         "buffer), read_leader / read_trailer one slice [0, size); with every submission succeeding the frame's submissions "
+         "are the model's slots as consecutive ranges, and the helpers panic exactly when one of the model's slice_in checks "
+         "fails. C12_transfer_layout_of_source (translated code alone): the transfer sizes sum to maximum_payload_size, and "
+         "in a buffer of that size every submitted range lies inside it (any shorter buffer: panic). C12_source_examples: "
+         "non-vacuity. StreamingLoop::run itself (polling, length accounting, channel traffic) stays the trace-validated "
+         "transition system model/StreamLoop.v; StreamHandle::{open, close, start/stop_streaming_loop} are not translated.",
+    note=" Also trusted: tools/translate_streamparams.py + tools/translate_streamparse.py and model/SpOps.v (sp_submit: slice "
+         "first - panic - then submit, an error leaves through `?`; r_for; Option as iterator); pinned: AsyncPool::submit's "
+         "signature, `impl From<u3v::Error> for StreamError`, the use lines.",
+    technique=" + code translator (StreamParams and the read helpers of stream_handle.rs)")
+SOURCE_TIE["C15"] = dict(
+    text=" TIE TO THE SOURCE CODE of the read-back: tools/translate_streamparams.py (the typed mini-Rust parser / emitter of tools/translate_streamparse.py extended with iterator adaptors, `for _ in 0..n`, `+=`, fall-through `if`, submit on a buffer range; debug-build integer semantics of lib/RustInt.v; operations of model/SpOps.v + model/RdOps.v) re-translates on every run, from cameleon/src/u3v/stream_handle.rs into gen/StreamParamsSrc.v, StreamParams::from_control statement by statement into the monad of "
+         "model/Control.v (which call into register_map.rs in which order; the register constant each Sirm / Abrm getter "
+         "reads is taken from the getter's body and emitted as the gen/RegTables.v name; the `as usize` conversions; "
+         "InvalidDevice for a missing SIRM; the argument order of Self::new through the translated `new`), and "
+         "payload_transfer_sizes. C15_stream_params_from_source: for EVERY control-handle state and device world the "
+         "translated from_control leaves the same state as model/Control.v's stream_params and returns the same outcome (six "
+         "parameters in the model's order, each `as usize`); under the control model's invariant "
+         "(C07_every_operation_sound) the two are equal; loop_submits of model/StreamStart.v is leader, the translated "
+         "payload_transfer_sizes, trailer. C15_stream_params_source_example: enable_streaming then the translated "
+         "from_control on the read-back example's device image gives [56; 64; 65536; 0; 1000; 0].",
+    note=" Also trusted: tools/translate_streamparams.py and the fc_* operations of model/SpOps.v (Abrm::new / Abrm::sbrm / "
+         "Sbrm::sirm mean read_reg / abrm_sbrm / sbrm_sirm_address of model/Control.v; their bodies in register_map.rs are "
+         "pinned textually).",
+    technique=" + code translator (StreamParams::from_control)")
+SOURCE_TIE["C16"] = dict(
+    text=" TIE TO THE SOURCE CODE: tools/translate_camera.py (own tokenizer and statement parser) re-translates on every "
+         "run Camera::{params_ctxt, open, load_context, start_streaming, stop_streaming, close} of cameleon/src/camera.rs "
+         "into gen/CameraSrc.v: every statement IN SOURCE ORDER in the monad of model/Camera.v (failure plan + state + effect "
+         "trace) over the operation vocabulary model/CamOps.v - `self.ctrl.<m>()?` / `self.strm.<m>(..)?` = one fallible "
+         "operation each (a Result that is not propagated with `?` is a ShapeError), `if self.strm.is_loop_running() { return "
+         "Err(StreamError::InStreaming.into()); }`, `if self.ctxt.is_none() { return Err(GenApiContextMissing); }`, `if "
+         "!self.strm.is_loop_running() { return Ok(()); }` as guards with their early returns, `let mut ctxt = "
+         "self.params_ctxt()?` = the translated params_ctxt, `expect_node!(&ctxt, NAME, as_X).set_value(&mut ctxt, v)?` / "
+         "`.execute(&mut ctxt)?` with the node name, the interface and the literal taken from the source (the text of "
+         "macro_rules! expect_node is pinned), `const DEFAULT_BUFFER_CAP`, `let (sender, receiver) = channel(cap, "
+         "DEFAULT_BUFFER_CAP)` (payload::channel pinned: bounded(0) panics), the sender to start_streaming_loop and the "
+         "receiver to the caller, `self.stop_streaming()?` inside close = the translated stop, `self.ctxt = "
+         "Some(Ctxt::from_xml(&xml)?)`, `if let Some(ctxt) = &mut self.ctxt { ctxt.clear_cache() }`; info!(..) lines and "
+         "#[tracing::instrument] are the only things skipped. C16_open_from_source, C16_load_from_source, "
+         "C16_start_from_source, C16_stop_from_source, C16_close_from_source, C16_params_ctxt_from_source: the translated "
+         "methods ARE cam_open / cam_load / cam_start true / cam_stop / cam_close / params_ctxt of model/Camera.v as functions "
+         "of the failure plan and the state (pointwise, no extensionality axiom); C16_run_from_source (a session executed with "
+         "the translated methods is the model's session), hence C16_order_of_source (every effect of every session of the "
+         "translated code under every failure plan is admissible after the effects before it); C16_start_of_source / "
+         "C16_stop_of_source (the device log of a failure-free translated start is EnableStreaming, TLParamsLocked := 1 [its "
+         "mirror], AcquisitionStart, LoopStart in this order; of a translated stop: LoopStop, AcquisitionStop, TLParamsLocked "
+         ":= 0 [mirror], DisableStreaming); C16_source_example (vm_compute). Any reordering of the steps, another node name, "
+         "interface or literal, the receiver handed to the loop, a dropped `?` changes the generated term: the equalities "
+         "fail (tried: AcquisitionStop before stop_streaming_loop, TLParamsLocked := 0 before AcquisitionStop, strm.close "
+         "before ctrl.close, set_value(.., 2), DEFAULT_BUFFER_CAP = 0, and every seeded change that edits camera.rs) or the "
+         "translator raises ShapeError; a renamed local, an extra info!, `Ok(())` through a let leave the proofs intact.",
+    note=" Also trusted: tools/translate_camera.py (tokenizer, the accepted statement shapes, the pins) and model/CamOps.v "
+         "(the meaning of each Rust step in the model's primitives: which effect a DeviceControl / PayloadStream method is, "
+         "IntegerNode::set_value of TLParamsLocked as register / host-side variable / <pValueCopy> mirror, CommandNode::execute, "
+         "the description as a parameter of load_context); the pinned pre-d70bfb8 variant cam_start false is not tied to any "
+         "source (it documents the repaired defect).",
+    technique=" + code translator (Camera methods of cameleon/src/camera.rs, statement order)")
+SOURCE_TIE["C03"] = dict(
+    text=" TIE TO THE SOURCE CODE (value-dispatch layer): tools/translate_ivalue.py (tokenizer, item / type / body parser, "
+         "a statement-level emitter with dictionary passing for traits) re-translates on every run into gen/IValueSrc.v: "
+         "trait IValue<T> as a record of value / set_value / is_readable and EVERY implementation in genapi/src/ivalue.rs - "
+         "impl_ivalue_for_imm! / impl_ivalue_for_vid! expanded token-wise from their parsed definitions once per invocation "
+         "(which conversion `as i64` / `as f64` and which ValueStore accessor each instance uses), StringId, NodeId as "
+         "IValue<i64> / <f64> / <String> (the ORDER of the as_iinteger_kind / as_ifloat_kind / as_ienumeration_kind tests, "
+         "what each branch calls, the final errors), ImmOrPNode, ValueKind (Value / PValue / PIndex arms), PValue (value "
+         "from p_value; set_value to p_value THEN every p_value_copy in order), PIndex (index through "
+         "expect_iinteger_kind, `value_indexed.iter().find(|vi| vi.index == index)`, the default) and PIndex::index; a "
+         "generic impl takes one dictionary per `where` bound and a call x.value(device, store, cx) is resolved from the "
+         "static type of x as rustc does (bound in scope, else the unique unifying impl, recursively). Also translated: "
+         "the data types of elem_type.rs, ValueStore::integer_value / float_value / str_value and NodeId::as_*_kind / "
+         "expect_*_kind (store.rs), the I*Kind::maybe_from tables (interface.rs), and the value paths of the node kinds: "
+         "value / set_value / min / max of IntegerNode and FloatNode, value / set_value of BooleanNode, current_value / "
+         "set_entry_by_value of EnumerationNode (entry lookup, invalidate_cache_by), execute / is_done of CommandNode. "
+         "model/IvOps.v gives the requests to other nodes through the interface kinds, the value store, the `as` "
+         "conversions and the EnumEntry lookup their meaning in terms of model/Graph.v's primitives. 18 further theorems "
+         "(47 in total, all closed): C03_kinds_from_source, C03_nodeid_dispatch_from_source, C03_valueid_from_source, "
+         "C03_immorpnode_from_source, C03_valuekind_from_source, C03_pvalue_copies_from_source, C03_pindex_from_source, "
+         "C03_integer_from_source, C03_float_from_source, C03_boolean_from_source, C03_enumeration_from_source, "
+         "C03_command_from_source prove, for every node store, node, state, value and every syntax tree of the model "
+         "(copy lists and indexed-value lists of any length by induction), the translated functions equal to the "
+         "corresponding clauses of model/Graph.v (same value / error class / state); C03_run_from_source closes the open "
+         "recursion with the model's evaluator. On the translated code alone, for ANY dictionaries: "
+         "C03_pvalue_write_order_of_source (main target first, then every copy in declaration order, stopping at the "
+         "first failure), C03_pindex_first_match_of_source (index first, then the FIRST indexed value with that index, "
+         "the default only if there is none), C03_boolean_value_of_source, C03_enumeration_reject_of_source (a value no "
+         "entry has is InvalidData and nothing is touched), C03_source_example (vm_compute, non-vacuity). A source change "
+         "outside the accepted shapes is reported as a broken proof obligation (ShapeError), a change inside them breaks "
+         "the equalities.",
+    note=" Also trusted: tools/translate_ivalue.py (parsers, token-wise macro expansion, erasure of references and of the "
+         "device / store / cx plumbing, instance resolution, `?` and `return Err` as leaving the function - `return` is only "
+         "accepted in tail positions and in the two pinned early-exit statement forms of a function body) and "
+         "model/IvOps.v: a method call on an interface kind is a request to the node the kind refers to (ambassador "
+         "delegation), Vec::get / get_mut + mem::replace of DefaultValueStore are nth_error / set_nth, ValueData::Boolean "
+         "has no counterpart, cx.invalidate_cache_by / invalidate_cache_of are no-ops (stores built with no_cache(); the "
+         "cached behaviour is C04's), the EnumEntry node behind an id is a parameter tied to the model's inlined entries "
+         "by a hypothesis. Not translated: IValue::is_writable and the node kinds' own is_readable / is_writable (C18), "
+         "inc, current_entry / set_entry_by_symbolic, the register / converter / swiss-knife / string node kinds, "
+         "utils.rs (those stay tied by the correspondence check).",
+    technique=" + code translator (trait IValue and its implementations, kind tables, value paths of Integer / Float / "
+              "Boolean / Enumeration / Command nodes)")
 for _pid, _d in SOURCE_TIE.items():
     if _pid in CLAIMED:
         for _k in ("text", "note", "technique"):
